@@ -54,7 +54,7 @@ func feasibleBlocks(fn *ssa.Function, mode Mode, prune func(*ssa.BasicBlock) []*
 func isDebugOnlyCond(cond ssa.Value) bool {
 	c, _ := normCond(cond)
 	if g, ok := globalLoad(c); ok {
-		switch g.Name() {
+		switch nm(g) {
 		case "inTesting", "isDebug", "isDebugging":
 			return true
 		}
@@ -152,7 +152,7 @@ func rawSinkPrim(cal *ssa.Function) (int, bool) {
 	if cal == nil || cal.Signature.Recv() == nil || typeName(cal.Signature.Recv().Type()) != "PrintCtx" {
 		return 0, false
 	}
-	switch cal.Name() {
+	switch nm(cal) {
 	case "WriteString", "Write":
 		return 1, true
 	}
@@ -257,7 +257,7 @@ func (ra *rawAnalysis) classify(v ssa.Value, fn *ssa.Function, out map[string]bo
 		}
 		if base, _, f, ok := fieldLoad(x); ok {
 			tn := typeName(base.Type())
-			switch tn + "." + f.Name() {
+			switch tn + "." + nm(f) {
 			case "PrintCtx.msg", "PrintCtx.restLines", "PrintCtx.firstLine":
 				out["message"] = true
 			case "PrintCtx.prefix":
@@ -273,12 +273,12 @@ func (ra *rawAnalysis) classify(v ssa.Value, fn *ssa.Function, out map[string]bo
 			case "Source.File", "Source.Function":
 				out["frame"] = true
 			default:
-				out["field:"+tn+"."+f.Name()] = true
+				out["field:"+tn+"."+nm(f)] = true
 			}
 			return
 		}
 		if g, ok := globalLoad(x); ok {
-			out["global:"+g.Name()] = true
+			out["global:"+nm(g)] = true
 			return
 		}
 		if al, ok := x.X.(*ssa.Alloc); ok {
@@ -320,7 +320,7 @@ func (ra *rawAnalysis) classify(v ssa.Value, fn *ssa.Function, out map[string]bo
 func (ra *rawAnalysis) classifyCall(call *ssa.Call, fn *ssa.Function, out map[string]bool, depth int, resIdx int) {
 	cc := call.Common()
 	if cc.IsInvoke() {
-		switch cc.Method.Name() {
+		switch nm(cc.Method) {
 		case "Key":
 			out["key"] = true
 		case "Value":
@@ -328,7 +328,7 @@ func (ra *rawAnalysis) classifyCall(call *ssa.Call, fn *ssa.Function, out map[st
 		case "Error":
 			out["error-text"] = true
 		case "String", "ToString":
-			if n := namedOf(cc.Value.Type()); n != nil && n.Obj().Name() == "Stringer" {
+			if n := namedOf(cc.Value.Type()); n != nil && nm(n.Obj()) == "Stringer" {
 				out["value"] = true
 			} else {
 				out["value"] = true
@@ -383,12 +383,12 @@ func (ra *rawAnalysis) classifyCall(call *ssa.Call, fn *ssa.Function, out map[st
 		}
 	case short == "checkedfuncname" || short == "checkpath":
 		out["frame"] = true
-	case cal.Signature.Recv() != nil && (typeName(cal.Signature.Recv().Type()) == "WithStackInfo" || strings.HasSuffix(cal.Name(), "Error")) && cal.Name() == "Error":
+	case cal.Signature.Recv() != nil && (typeName(cal.Signature.Recv().Type()) == "WithStackInfo" || strings.HasSuffix(nm(cal), "Error")) && nm(cal) == "Error":
 		out["error-text"] = true
 	case strings.HasPrefix(short, "colorizeToolS."):
 		// colour helpers: text-wise they return/forward their text argument
 		for i, prm := range cal.Params {
-			if prm.Type().String() == "string" && (prm.Name() == "text" || prm.Name() == "str" || prm.Name() == "line") && i < len(cc.Args) {
+			if prm.Type().String() == "string" && (nm(prm) == "text" || nm(prm) == "str" || nm(prm) == "line") && i < len(cc.Args) {
 				ra.classify(cc.Args[i], fn, out, depth+1)
 			}
 		}
@@ -452,7 +452,7 @@ func (ra *rawAnalysis) run() {
 	// also direct `s.buf = append(s.buf, X...)` stores: handled as sites below
 	seenSite := map[ssa.Instruction]bool{}
 	consider := func(fn *ssa.Function, in ssa.Instruction, payload ssa.Value, via string) {
-		if escaperFuncs[fn.Name()] || (fn.Parent() != nil && escaperFuncs[fn.Parent().Name()]) {
+		if escaperFuncs[nm(fn)] || (fn.Parent() != nil && escaperFuncs[nm(fn.Parent())]) {
 			return // inside an escaper: its raw copies are the safe runs it selected
 		}
 		cls := map[string]bool{}
@@ -578,7 +578,7 @@ func (mr *ModeReach) constEmissions() []constEmit {
 				cal := calleeOf(cs)
 				name := invokeName(cs)
 				if cal != nil {
-					name = cal.Name()
+					name = nm(cal)
 				}
 				switch name {
 				case "WriteByte", "pcAppendByte", "AppendByte", "WriteRune", "pcAppendRune", "AppendRune", "AddRune":
